@@ -198,9 +198,15 @@ impl Leg for Runs {
                 let scale = if w == 0 { m } else { w };
                 let p = RecParams { max_records: tier.pick(30, 200), scale, max_len: tier.pick(150, 500), degenerate_w: 2, bounds: [m, w, 0], nuc_only: false };
                 (gen::records_mixed_in_container(p), gen::sched_strategy(true, 80), any::<u16>()).prop_map(move |((mut recs, cont), sched, which)| {
+                    let dup = dup || which % 16 == 1;
                     if dup && recs.len() >= 2 {
+                        // a reused id; half of the time the whole record is repeated (a file concatenated
+                        // twice, paired mates with one name): identical (id, start, end) entries
                         let i = crate::util::idx16(which, recs.len() - 1);
                         recs[i + 1].id = recs[i].id.clone();
+                        if which % 2 == 0 && (!cont.is_fastq() || !recs[i].seq.0.is_empty()) {
+                            recs[i + 1].seq = recs[i].seq.clone();
+                        }
                     }
                     let threads = if matches!(sched, Sched::Controlled(_)) { ((threads - 1) % 6) + 1 } else { threads };
                     Case { recs, cont, m, w, threads, sched }
@@ -210,6 +216,62 @@ impl Leg for Runs {
     }
     fn check(c: &Case) -> Verdict {
         check_case(c)
+    }
+}
+
+// ---------------------------------------------------------------------------------------------
+// large outputs: thousands of records, so that every worker writes far more than any buffer size
+
+#[derive(Clone, Debug, Serialize, Deserialize)]
+pub struct LargeCase {
+    /// a few generated records; record i of the file is unit[i % len] rotated by i
+    pub unit: Vec<Rec>,
+    pub copies: usize,
+    pub m: usize,
+    pub w: usize,
+    pub threads: usize,
+}
+
+pub fn large_records(c: &LargeCase) -> Vec<Rec> {
+    let mut out = Vec::with_capacity(c.copies);
+    for i in 0..c.copies {
+        let u = &c.unit[i % c.unit.len()];
+        let mut s = u.seq.0.clone();
+        if !s.is_empty() {
+            let r = i % s.len();
+            s.rotate_left(r);
+        }
+        out.push(Rec { id: format!("{}_{}", u.id, i), desc: None, seq: crate::util::Bytes(s) });
+    }
+    out
+}
+
+pub struct Large;
+impl Leg for Large {
+    type Case = LargeCase;
+    const NAME: &'static str = "large-outputs";
+    fn strategy(tier: Tier) -> BoxedStrategy<LargeCase> {
+        let copies = tier.pick(1500usize..=3000, 3000usize..=12000);
+        (1usize..=12, prop_oneof![1 => Just(0usize), 4 => 1usize..=8], prop_oneof![1 => Just(1usize), 2 => Just(2usize), 3 => 3usize..=16], copies)
+            .prop_flat_map(|(m, d, threads, copies)| {
+                let w = if d == 0 { 0 } else { m + d };
+                let p = RecParams { max_records: 6, scale: if w == 0 { m } else { w }, max_len: 160, degenerate_w: 0, bounds: [m, w, 0], nuc_only: false };
+                gen::records_exact(p, 4).prop_map(move |unit| LargeCase { unit, copies, m, w, threads })
+            })
+            .boxed()
+    }
+    fn check(c: &LargeCase) -> Verdict {
+        let mut v = Verdict::new();
+        let recs = large_records(c);
+        let dir = crate::scratch_dir();
+        let input = io::write_input(dir.path(), "in", &recs, &Container::plain_fasta());
+        let o = exec(&io::path_str(&input), dir.path(), c.w, c.m, c.threads, &Sched::Free);
+        let bytes = o.s2m.as_ref().map(|d| d.len()).unwrap_or(0);
+        v.class("large");
+        v.class(match bytes { 0..=65536 => "s2m<=64KiB", 65537..=1048576 => "s2m<=1MiB", _ => "s2m>1MiB" });
+        v.nontrivial = bytes > 65536 * c.threads && c.threads >= 2;
+        fail_of(&mut v, &o, &recs, c.w, c.m, &format!("large input: {} records, w={}, m={}, {} threads", recs.len(), c.w, c.m, c.threads));
+        v
     }
 }
 
@@ -282,6 +344,8 @@ pub fn run(ctx: &mut Ctx) {
     ctx.run_leg::<Runs>(n, true, 200);
     let n = ctx.share(ctx.tier.pick(64, 1_000));
     ctx.run_leg::<Enum>(n, true, 40);
+    let n = ctx.share(ctx.tier.pick(40, 400));
+    ctx.run_leg::<Large>(n, true, 20);
     let (s, complete, trunc) = SCHEDULES.with(|s| s.get());
     ctx.out.extra.insert("schedules_enumerated".into(), serde_json::json!(s));
     ctx.out.extra.insert("inputs_with_complete_schedule_enumeration".into(), serde_json::json!(complete));
@@ -292,6 +356,7 @@ pub fn replay(leg: &str, case: &serde_json::Value) -> Option<Result<Verdict, Str
     match leg {
         "runs" => Some(crate::engine::replay_leg::<Runs>(case)),
         "sched-enum" => Some(crate::engine::replay_leg::<Enum>(case)),
+        "large-outputs" => Some(crate::engine::replay_leg::<Large>(case)),
         _ => None,
     }
 }
